@@ -80,10 +80,15 @@ func main() {
 		inputs = append(inputs, s)
 	}
 
+	// a command line is built from several escaped words: all results are computed first and looked at afterwards
+	// (a returned string must stay what it was)
 	recs := make([]rec, len(inputs))
+	es, ts := make([]string, len(inputs)), make([]string, len(inputs))
 	for i, s := range inputs {
-		e, t := strutil.ShellEscape(s), strutil.ShellEscapeExceptTilde(s)
-		recs[i] = rec{S: vio.Ints(s), E: vio.Ints(e), T: vio.Ints(t), Sh: true}
+		es[i], ts[i] = strutil.ShellEscape(s), strutil.ShellEscapeExceptTilde(s)
+	}
+	for i, s := range inputs {
+		recs[i] = rec{S: vio.Ints(s), E: vio.Ints(es[i]), T: vio.Ints(ts[i]), Sh: true}
 	}
 
 	// ---- real shells
